@@ -27,6 +27,7 @@ const (
 	shBytes // T is a slice-kinded type
 	shMap   // T is a map-kinded type
 	shNum   // T is an integer-kinded type
+	shByte  // T is a uint8-kinded type
 	numShapes
 )
 
@@ -41,7 +42,7 @@ type Both interface {
 	json.Unmarshaler
 }
 
-var shapeNames = [...]string{"V(value marshalers, pointer unmarshalers)", "*P(pointer type)", "OnlyM", "OnlyU", "None", "Both(interface-typed T holding *P or nil)", "*V(pointer to value-receiver type)", "Str(string kind)", "Bytes(slice kind)", "Map(map kind)", "Num(integer kind)"}
+var shapeNames = [...]string{"V(value marshalers, pointer unmarshalers)", "*P(pointer type)", "OnlyM", "OnlyU", "None", "Both(interface-typed T holding *P or nil)", "*V(pointer to value-receiver type)", "Str(string kind)", "Bytes(slice kind)", "Map(map kind)", "Num(integer kind)", "Byte(uint8 kind)"}
 var helperNames = [...]string{"MarshalText", "UnmarshalText", "MarshalBinary", "UnmarshalBinary", "MarshalJSON", "UnmarshalJSON"}
 
 // listSpec is one helper invocation.
@@ -50,7 +51,7 @@ type listSpec struct {
 	dir        int
 	shape      int
 	goexit     bool
-	typeHelper int // 0 none, 1 recording (symmetric), 2 recording with an asymmetric AssertEqual (zero fields of expected are not compared)
+	typeHelper int // 0 none, 1 recording (symmetric), 2 recording with an asymmetric AssertEqual (zero fields of expected are not compared), 3 recording and prototype-cloning (New carries V.Mode over from its argument)
 	cases      []caseSpec
 }
 
@@ -59,7 +60,7 @@ func (ls listSpec) helper() string { return helperNames[ls.enc*2+ls.dir] }
 // hasInterface: does the shape implement the interface this helper needs?
 func (ls listSpec) hasInterface() bool {
 	switch ls.shape {
-	case shV, shP, shIface, shPV, shStr, shBytes, shMap, shNum:
+	case shV, shP, shIface, shPV, shStr, shBytes, shMap, shNum, shByte:
 		return true
 	case shOnlyM:
 		return ls.dir == dirMarshal
@@ -78,8 +79,12 @@ func applicable(dir, constraint int) bool {
 
 // predMet: is the case's error predicate met by what the scripted call does?
 func predMet(c caseSpec) bool {
-	failed := c.beh != bRight && c.beh != bWrong && c.beh != bNothing
+	failed := c.beh != bRight && c.beh != bWrong && c.beh != bNothing && c.beh != bEmptied
 	switch c.pred {
+	case pCustomAcceptNil:
+		return true
+	case pMatchDotAll:
+		return failed && !c.isPanic()
 	case pAny, pPrefixMet, pMatchMet, pPrefixEmpty, pSuffixEmpty, pCustomAccept:
 		return failed
 	case pExactMet, pSuffixMet:
@@ -95,6 +100,8 @@ func resultNonEmpty(dir int, c caseSpec) bool {
 	switch c.beh {
 	case bRight, bWrong, bErrorWithData:
 		return true
+	case bErrorEmptied, bEmptied:
+		return false // empty though not nil
 	case bPanicAfterSet:
 		return dir == dirUnmarshal
 	}
@@ -124,6 +131,10 @@ func unsatisfied(dir int, c caseSpec) bool {
 	if c.nilIface {
 		// a nil interface value can neither be marshaled nor be the target of a decode
 		return true
+	}
+	if c.nilExpect && dir == dirUnmarshal {
+		// the listed value is nil: only a decoder that leaves the fresh (nil) value alone matches it
+		return c.beh != bNothing
 	}
 	if c.wildcard && dir == dirUnmarshal {
 		// the asymmetric TypeHelper compares the case number only: a decode that sets any
@@ -210,6 +221,10 @@ func predicate(c caseSpec, i int) test.AssertErrorFunc {
 		return func(t test.TestingT, err error, failInfo string) bool { return err != nil }
 	case pCustomReject:
 		return func(t test.TestingT, err error, failInfo string) bool { return false }
+	case pCustomAcceptNil:
+		return func(t test.TestingT, err error, failInfo string) bool { return true }
+	case pMatchDotAll:
+		return test.ErrorMatch("^" + regexp.QuoteMeta(short) + ".+$")
 	}
 	return test.ErrorMatch("(")
 }
@@ -218,8 +233,9 @@ var constraints = [...]test.Constraint{0, test.OnlyMarshal, test.OnlyUnmarshal}
 
 // recHelper is a recording TypeHelper with its own, correct, comparisons.
 type recHelper[T any] struct {
-	l    *listRun
-	asym bool
+	l     *listRun
+	asym  bool
+	clone bool // New carries the Mode of its argument over (prototype cloning), for T = V
 }
 
 func (h recHelper[T]) New(value T) T {
@@ -228,6 +244,11 @@ func (h recHelper[T]) New(value T) T {
 		return reflect.New(t.Elem()).Interface().(T)
 	}
 	var z T
+	if h.clone {
+		if pv, ok := any(value).(V); ok {
+			return any(V{Mode: pv.Mode}).(T)
+		}
+	}
 	return z
 }
 
@@ -247,7 +268,14 @@ func isZero(v interface{}) bool {
 
 func (h recHelper[T]) AssertEmpty(t test.TestingT, value T, failInfo string) {
 	h.l.events = append(h.l.events, event{"typehelper.AssertEmpty", h.l.lastSeen})
-	if !isZero(value) {
+	empty := isZero(value)
+	if rv := reflect.ValueOf(value); rv.IsValid() && (rv.Kind() == reflect.Slice || rv.Kind() == reflect.Map) && rv.Len() == 0 {
+		empty = true // this helper's notion of empty for collections: no elements
+	}
+	if pv, ok := any(value).(V); ok && h.clone && pv.Case == 0 && pv.Payload == "" {
+		empty = true // a fresh prototype clone carries its mode and nothing else
+	}
+	if !empty {
 		t.Errorf("typehelper: not empty: %s", failInfo)
 	}
 }
@@ -292,7 +320,7 @@ func runEnc[T any](l *listRun, ls listSpec, mk func(i int, c caseSpec) T) {
 	rec := &recorder{l}
 	var th test.TypeHelper[T]
 	if ls.typeHelper != 0 {
-		th = recHelper[T]{l, ls.typeHelper == 2}
+		th = recHelper[T]{l, ls.typeHelper == 2, ls.typeHelper == 3}
 	}
 	// listed is the case as the caller wrote it; right is what its Before hook turns it into
 	// when the case is of the "adjust" kind
@@ -303,6 +331,10 @@ func runEnc[T any](l *listRun, ls listSpec, mk func(i int, c caseSpec) T) {
 		return c.data(i)
 	}
 	listedValue := func(i int, c caseSpec) T {
+		if c.nilExpect || (c.adjust && ls.dir == dirUnmarshal && ls.shape == shIface && i > 0) {
+			var z T // nil slice / map; for the interface shape: the hook will supply the value
+			return z
+		}
 		if c.adjust && ls.dir == dirUnmarshal {
 			w := c
 			w.payload += "#listed-wrong"
@@ -385,13 +417,20 @@ func runEnc[T any](l *listRun, ls listSpec, mk func(i int, c caseSpec) T) {
 // execList runs one helper invocation and returns the recording; escaped is the panic that
 // left the helper, if any.
 func execList(ls listSpec, keepMsgs bool) (l *listRun, escaped interface{}) {
+	resetPackages() // every helper invocation starts from package test's initial state
 	l = &listRun{specs: ls.cases, enc: ls.enc, lastSeen: -1, failures: make([]int, len(ls.cases)), goexit: ls.goexit, keepMsgs: keepMsgs}
 	cur = l
 	defer func() { cur = nil }()
 	body := func() {
 		switch ls.shape {
 		case shV:
-			runEnc(l, ls, func(i int, c caseSpec) V { return V{i + 1, c.payload} })
+			runEnc(l, ls, func(i int, c caseSpec) V {
+				v := V{Case: i + 1, Payload: c.payload}
+				if ls.typeHelper == 3 {
+					v.Mode = "mode:" + c.payload // the listed-wrong value of an adjusting case carries a wrong mode too
+				}
+				return v
+			})
 		case shP:
 			runEnc(l, ls, func(i int, c caseSpec) *P {
 				if c.beh == bNilReceiver || (c.nilValue && ls.dir == dirUnmarshal) {
@@ -413,17 +452,22 @@ func execList(ls listSpec, keepMsgs bool) (l *listRun, escaped interface{}) {
 			runEnc(l, ls, func(i int, c caseSpec) Map { return Map{"c": kindValue(i+1, c.payload)} })
 		case shNum:
 			runEnc(l, ls, func(i int, c caseSpec) Num { return Num(i + 1) })
+		case shByte:
+			runEnc(l, ls, func(i int, c caseSpec) Byte { return Byte(i + 1) })
 		case shPV:
 			runEnc(l, ls, func(i int, c caseSpec) *V {
 				if c.beh == bNilReceiver || (c.nilValue && ls.dir == dirUnmarshal) {
 					return nil
 				}
-				return &V{i + 1, c.payload}
+				return &V{Case: i + 1, Payload: c.payload}
 			})
 		case shIface:
 			runEnc(l, ls, func(i int, c caseSpec) Both {
 				if c.nilIface {
 					return nil
+				}
+				if c.other {
+					return &Q{i + 1, c.payload, true}
 				}
 				return &P{i + 1, c.payload}
 			})
@@ -525,10 +569,27 @@ func normalise(ls *listSpec) {
 		if c.adjust {
 			c.before = hPass
 		}
-		if c.adjust && ls.shape == shNum && ls.dir == dirUnmarshal {
+		if c.adjust && (ls.shape == shNum || ls.shape == shByte) && ls.dir == dirUnmarshal {
 			c.adjust = false // an integer has no room for a "listed wrong" payload
 		}
-		if c.wildcard && (ls.shape == shStr || ls.shape == shBytes || ls.shape == shMap || ls.shape == shNum || ls.typeHelper != 2 || ls.dir != dirUnmarshal || c.pred != pNone || c.nilValue || c.nilIface || c.adjust) {
+		emptyKinds := ls.shape == shBytes || ls.shape == shMap
+		if (c.beh == bErrorEmptied || c.beh == bEmptied) && (!emptyKinds || ls.dir != dirUnmarshal) {
+			if c.beh == bErrorEmptied {
+				c.beh = bError
+			} else {
+				c.beh = bNothing
+			}
+		}
+		if c.nilExpect && (!emptyKinds || ls.dir != dirUnmarshal || c.adjust || c.wildcard || c.pred != pNone) {
+			c.nilExpect = false
+		}
+		if c.other && ls.shape != shIface {
+			c.other = false
+		}
+		if ls.shape == shByte && i >= 90 {
+			c.constraint = 2 - ls.dir // a uint8 case number stays below the "wrong" offset
+		}
+		if c.wildcard && (ls.shape == shStr || ls.shape == shBytes || ls.shape == shMap || ls.shape == shNum || ls.shape == shByte || ls.typeHelper != 2 || ls.dir != dirUnmarshal || c.pred != pNone || c.nilValue || c.nilIface || c.adjust) {
 			c.wildcard = false
 		}
 		if c.nilIface {
@@ -560,6 +621,9 @@ func normalise(ls *listSpec) {
 	}
 	if !ls.hasInterface() || ls.dir == dirMarshal {
 		ls.typeHelper = 0
+	}
+	if ls.typeHelper == 3 && ls.shape != shV {
+		ls.typeHelper = 1
 	}
 }
 
